@@ -1579,6 +1579,8 @@ def r10_flag_writers_and_pairing(facts):
                 elif recv.get("k") == "VarRef" and b.get("impl_self") == ARRAY and not b.get("reachable") \
                         and recv["v"] == self_var(base, b) and (b.get("inputs") or [""])[0] == ARRAY:
                     fresh, why = True, "on the by-value array under construction"
+                if not fresh and r.endswith("::untracked") and rv.get("k") == "Call" and (resolved(rv) or "").endswith("<corgi::array::Array as core::clone::Clone>::clone"):
+                    fresh, why = True, "on a clone made for the purpose: the flag is per handle, the handle that was cloned keeps its own"
                 if not fresh and r.endswith("::untracked") and recv.get("k") == "VarRef" and _detaching_function(base, b, recv["v"]):
                     fresh, why = True, ("on a by-value parameter of a function that returns a freshly built array and stores nothing: the caller's own handles "
                                         "keep their flags (the flag is per handle) and no graph leaves the function")
